@@ -46,6 +46,7 @@ func (e *Exec) baseEnv(fr *Frame, st *State) *SpecEnv {
 	}
 	for _, p := range fr.fn.Params {
 		env.vars[p.Name()] = fr.vals[p]
+		env.vars["now."+p.Name()] = fr.vals[p]
 	}
 	for _, fv := range fr.fn.FreeVars {
 		// free variables are pointers to the captured variable
@@ -61,7 +62,9 @@ func (e *Exec) baseEnv(fr *Frame, st *State) *SpecEnv {
 			continue
 		}
 		if v, ok := fr.vals[db.v]; ok {
-			if _, isParam := env.vars[db.name]; isParam {
+			if _, isParam := paramNames(fr.fn)[db.name]; isParam {
+				env.vars["now."+db.name] = v
+				bound["now."+db.name] = db.blk
 				continue // parameter names denote the argument values (loop invariants see the loop variable)
 			}
 			env.vars[db.name] = v
@@ -87,7 +90,7 @@ func (e *Exec) baseEnv(fr *Frame, st *State) *SpecEnv {
 					continue
 				}
 				if _, isParam := paramNames(fr.fn)[name]; isParam {
-					continue
+					name = "now." + name
 				}
 				v, done := fr.vals[phi]
 				if !done {
@@ -284,6 +287,12 @@ func (env *SpecEnv) eval(x *SExpr) (Val, error) {
 		return env.evalBin(x)
 	case "sel":
 		// caller.x inside a call-site condition: the caller's x even when the callee has a parameter x
+		if x.Args[0].Op == "id" && x.Args[0].Tok == "now" {
+			// now.p: the CURRENT value of a parameter that the function reassigns (the bare name denotes the argument)
+			if v, ok := env.vars["now."+x.Tok]; ok {
+				return v, nil
+			}
+		}
 		if x.Args[0].Op == "id" && x.Args[0].Tok == "caller" {
 			if v, ok := env.vars["caller."+x.Tok]; ok {
 				return v, nil
